@@ -71,11 +71,13 @@ structure Link where
   desync : Bool
   /-- handed to the receiving side, oldest first -/
   delivered : List Msg
+  /-- every message whose frame has passed completely (delivered or not), oldest first -/
+  completed : List Msg
   /-- every octet that went over the line, oldest first -/
   wire : List Nat
 deriving Repr
 
-def Link.init : Link := ⟨[], none, false, [], []⟩
+def Link.init : Link := ⟨[], none, false, [], [], []⟩
 
 def Link.send (s : Link) (m : Msg) : Link := { s with pending := s.pending ++ [m] }
 
@@ -85,11 +87,11 @@ size is dropped; a longer one is dropped and costs alignment.  Out of alignment:
 lost; alignment is back unless this frame was over-long itself. -/
 def Link.complete (cap : Nat) (s : Link) (m : Msg) : Link :=
   if s.desync then
-    { s with cur := none, desync := decide (m.payload.length ≥ cap) }
+    { s with cur := none, completed := s.completed ++ [m], desync := decide (m.payload.length ≥ cap) }
   else if m.payload.length < cap then
-    { s with cur := none, delivered := s.delivered ++ [m] }
+    { s with cur := none, completed := s.completed ++ [m], delivered := s.delivered ++ [m] }
   else
-    { s with cur := none, desync := decide (m.payload.length > cap) }
+    { s with cur := none, completed := s.completed ++ [m], desync := decide (m.payload.length > cap) }
 
 /-- the line takes one octet (if there is anything to send) -/
 def Link.octet (cap : Nat) (s : Link) : Link :=
@@ -103,5 +105,24 @@ def Link.octet (cap : Nat) (s : Link) : Link :=
   | some (m, c :: rest) =>
     if rest = [] then Link.complete cap { s with wire := s.wire ++ [c] } m
     else { s with cur := some (m, rest), wire := s.wire ++ [c] }
+
+/-! ### bookkeeping used to state what the link guarantees -/
+
+/-- the frame on the line, as a list -/
+def Link.inflight (s : Link) : List Msg :=
+  match s.cur with
+  | some (m, _) => [m]
+  | none => []
+
+/-- every message is somewhere: delivered, on the line, or waiting -/
+def Link.all (s : Link) : List Msg := s.delivered ++ s.inflight ++ s.pending
+
+/-- octets the line still has to carry for what is queued now -/
+def Link.remaining (s : Link) : Nat :=
+  (match s.cur with | some (_, todo) => todo.length | none => 0) +
+    (s.pending.map (fun m => (frame m).length)).sum
+
+/-- a frame on the line always has octets to go -/
+def Link.curOk (s : Link) : Prop := ∀ m todo, s.cur = some (m, todo) → todo ≠ []
 
 end OsmoVerif.Spec.Sercomm
